@@ -241,6 +241,23 @@ CHECKS['C17']['text'] += " The CLI's shot/echo policy is found as a data-flow sl
 for _p in ('C01', 'C02', 'C03', 'C04', 'C05', 'C17'):
     CHECKS[_p]['note'] += " Helper functions of the analysed kernels are inlined by K-NORM (meaning-preserving: inline, nrvo, sroa, copy propagation) before the rules read them."
 
+# round 6 of the seeded changes and the two defects repaired then
+CHECKS['C04']['text'] += " Index reuse hands out the free-list element it removes (read back(), pop, reset; exclusive with fresh allocation)."
+CHECKS['C05']['text'] += " Texts chosen by a condition are kept as alternatives in the folded listing template (never equal to the fixed documented header)."
+CHECKS['C06']['text'] += " A recycled index is handed out only after sim.reset(index) on every path (both copies of the measured flag clear)."
+CHECKS['C08']['text'] += (" Every store into an existing typed slot keeps or re-establishes the slot's static-class stamp; base-first layout through generic templates "
+                          "(C10 R10.2) and the emptied return-value slot (no returned object pinned past its call) are obligations here too.")
+CHECKS['C10']['text'] += " Table entries filled in place (through a reference to the slot, or field by field) are read like assigned entries."
+CHECKS['C11']['text'] += " A container whose every appended element had its fields cleared immediately before is storage only (premise checked), not a marking root."
+CHECKS['C12']['text'] += (" Base-first layout (C10 R10.2) so that field offsets stay inside the object; every non-owning alias of a dying object is a named local whose "
+                          "use_count() is examined and recorded in a flag, and every delete of an Object is on the flag-clear side of a test of that flag.")
+CHECKS['C13']['text'] += " Each vector subscript of the analyser is dominated by a range test, a loop bound on an equally long vector, or a size test (29 sites)."
+CHECKS['C16']['text'] += " Every visitor of a statement kind with sub-statements raises the constructor nesting counter before visiting any child (R16.E)."
+CHECKS['C17']['text'] += (" Every builder of a runtime field description copies the same attributes (tracked flag); the return-value slot is emptied when an activation "
+                          "hands its result over (an owner returned from a function ends inside the run).")
+CHECKS['C18']['text'] += " In the simulator every write guarded by the per-shot logging switch goes to the log only; the switch is set by the constructor only."
+CHECKS['C19']['text'] += " The search-path preference is exactly: name parts non-empty and first part == \"bloch\" (conjunct-wise); first hit decided path-sensitively."
+
 NOT_YET = "check not yet built in this round (framework under construction; see DESIGN.md §4 for the planned static rules)"
 
 
